@@ -621,7 +621,11 @@ func (t *tr) block(list []ast.Stmt, k func() string) string {
 					rest := next()
 					t.locals, t.nilVar = sl, sn
 					if es.Exit != "" {
-						rest = "(if " + es.Exit + " then ([], " + es.ExitRet + ") else " + rest + ")"
+						if !t.effRes && !t.loop { // a function without result: the exit just ends the effect list
+							rest = "(if " + es.Exit + " then [] else " + rest + ")"
+						} else {
+							rest = "(if " + es.Exit + " then ([], " + es.ExitRet + ") else " + rest + ")"
+						}
 					}
 					return t.cons(fmt.Sprintf("(Eff.call %q [])", es.Name), rest)
 				}
